@@ -33,6 +33,10 @@ def floors(m, tier):
             "match() evaluations": (c.get("match_calls", 0), u * 5),
             "match() True": (c.get("match_true", 0), u),
             "match() on forced-type Sids": (c.get("match_forced_type", 0), 20),
+            "match() against '>' searches": (c.get("match_with_last_symbol", 0), u),
+            "match() True against '>' searches": (c.get("match_true_with_last_symbol", 0), 10),
+            "do_strip finders": (c.get("do_strip_finders", 0), u // 2),
+            "do_strip non-empty results judged": (c.get("do_strip_nonempty", 0), u),
             "match() where the search's query overwrites its own symbol": (c.get("match_query_overwrites_symbol", 0), u),
             "typed non-search lookups": (c.get("typed_nonsearch", 0), u),
             "alias in last segment of a typed non-search Sid": (c.get("typed_nonsearch_alias", 0), 5)}
@@ -66,11 +70,17 @@ def install(rec, model, state):
         if type(self) is not FindInList:
             return
         search = args[0] if args else kwargs.get("search_sid")
-        L = self.searchlist
-        if not isinstance(L, list):
-            return
+        L = state.get("finder_lists", {}).get(id(self))
+        if L is None:
+            # a finder the harness did not build (e.g. the one Sid.match builds): judged against the list it holds
+            L = self.searchlist
+            if not isinstance(L, list):
+                rec.count("finder_holds_no_list")
+                return
         if state.get("expect_list") is not None and self is state.get("extrap_finder"):
             L = state["expect_list"]       # the entries an extrapolated leaf list stands for: the leaves and their ancestors
+        if ">" in str(search):
+            return                       # "last" searches: C09 (match() against them is judged by check_match)
         rec.mon("M-find:FindInList")
         case = {"search": str(search), "list": list(L) if len(L) <= 400 else None, "variant": state.get("variant")}
         if exc is not None:
@@ -96,6 +106,17 @@ def install(rec, model, state):
         if len(set(got)) != len(got):
             rec.violation("duplicates_yielded", case, repr(got[:20]))
         exp = expected_in_list(L, forms)
+        if id(self) in state.get("strip_finders", ()):
+            # do_strip: the documented effect is on the returned items; whether a line is matched before or after stripping is
+            # not stated - judged only where both readings agree
+            exp_raw = {e.strip() for e in exp}
+            exp_stripped = expected_in_list([e.strip() for e in L], forms)
+            if exp_raw != exp_stripped:
+                rec.unspec("do_strip_match_before_or_after_strip")
+                return
+            exp = exp_raw
+            if exp:
+                rec.count("do_strip_nonempty")
         if exp and len(exp) < len(set(L)):
             rec.count("expected_strict_subset")
             rec.nt("%s|%s|%s" % (state.get("variant"), state.get("uid"), search))
@@ -113,10 +134,25 @@ def check_match(rec, model, Sid, x_str, s, forced_type=None):
     x = Sid((forced_type + ":" + x_str) if forced_type else x_str)
     if not x:
         return
+    case = {"sid": x_str, "search": s, "mode": "match", "forced_type": forced_type}
+    if "?" in s and any(ch in s.split("?", 1)[1] for ch in "%+;#~ "):
+        rec.unspec("url_metachar_in_filter")
+        return
+    try:
+        forms = [str(u) for u in tools.unfold_search(s) if u and "?" not in str(u)]
+    except Exception:
+        forms = None
+    last = False
+    if forms and any(">" in f for f in forms):
+        # in a list containing only itself a matching Sid is the last of its group: '>' reads as '*'
+        if len({f.split("/").index(">") if ">" in f.split("/") else -1 for f in forms}) != 1:
+            rec.unspec("last_symbol_at_several_positions")       # outside C09's premise
+            return
+        forms = [f.replace(">", "*") for f in forms]
+        last = True
     if forced_type:
         rec.count("match_forced_type")
     rec.count("match_calls")
-    case = {"sid": x_str, "search": s, "mode": "match", "forced_type": forced_type}
     try:
         got = x.match(s)
     except SpilException:
@@ -124,16 +160,15 @@ def check_match(rec, model, Sid, x_str, s, forced_type=None):
     except Exception as e:
         rec.violation("match_raised", case, repr(e))
         return
-    if "?" in s and any(ch in s.split("?", 1)[1] for ch in "%+;#~ "):
-        rec.unspec("url_metachar_in_filter")
+    if forms is None:
         return
-    try:
-        forms = [str(u) for u in tools.unfold_search(s) if u and "?" not in str(u)]
-    except Exception:
-        return
+    if last:
+        rec.count("match_with_last_symbol")
     exp = any(gmatch(f, str(x)) for f in forms)
     if exp:
         rec.count("match_true")
+        if last:
+            rec.count("match_true_with_last_symbol")
     if bool(got) != exp:
         rec.violation("match_differs", case, "match=%r expected=%r forms=%r" % (got, exp, forms[:6]))
 
@@ -154,6 +189,12 @@ def worker(args):
         try:
             if c.get("mode") == "match":
                 check_match(rec, model, Sid, c["sid"], c["search"], c.get("forced_type"))
+            elif str(c.get("variant", "")).startswith("raw_lines_do_strip"):
+                fd = FindInList(list(c["list"]), do_strip=True)
+                state["finder_lists"] = {id(fd): list(c["list"])}
+                state["strip_finders"] = {id(fd)}
+                list(fd.find(c["search"], as_sid=False))
+                list(fd.find(c["search"], as_sid=False))      # (a Finder answers more than once)
             else:
                 list(FindInList(c["list"]).find(c["search"], as_sid=False))
         except Exception:
@@ -180,17 +221,31 @@ def worker(args):
         state["uid"] = "%s-%d" % (args.get("seed"), u)
         variants = universe.list_variants(rng, model, ents)
         variants.append(("leaf_only_extrapolated", list(ents)))
+        # raw lines of a text file, read with do_strip=True: the entries are the stripped lines
+        variants.append(("raw_lines_do_strip", [rng.choice(["", " ", "  "]) + e + rng.choice(["\n", " \n", "\r\n", "", "\t"]) for e in full]))
         for vname, L in variants:
             state["variant"] = vname
+            state["finder_lists"] = {}
+            state["strip_finders"] = set()
             if vname == "leaf_only_extrapolated":
                 # FindInList builds the hierarchy itself: same answers as the complete list
                 finder = FindInList(list(L), do_extrapolate=True)
                 state["expect_list"] = list(full)
                 state["extrap_finder"] = finder
+            elif vname == "raw_lines_do_strip":
+                state.pop("expect_list", None)
+                state.pop("extrap_finder", None)
+                finder = FindInList(list(L), do_strip=True)
+                state["finder_lists"][id(finder)] = list(L)
+                state.setdefault("strip_finders", set()).add(id(finder))
+                state["keep"] = finder
+                rec.count("do_strip_finders")
             else:
                 state.pop("expect_list", None)
                 state.pop("extrap_finder", None)
                 finder = FindInList(L)
+                state["finder_lists"][id(finder)] = list(L)
+                state["keep"] = finder
             for k in range(args["searches"] // 4 + 1):
                 r = rng.random()
                 if r < 0.75:
@@ -216,6 +271,18 @@ def worker(args):
                     s, info = searchgen.make_search(rng, model, vocab, t, allow_last=False, pool=names or universe.UNI_NAMES, small=True)
                 if ">" in s or "<" in s:
                     continue
+                if k % 6 == 0:
+                    # match() against a "last" search built from the same search
+                    sg = s.split("?", 1)[0].split("/")
+                    cand_i = [i for i, v in enumerate(sg) if v == "*"]
+                    if cand_i:
+                        i = rng.choice(cand_i)
+                        s_last = "/".join(sg[:i] + [">"] + sg[i + 1:]) + ("?" + s.split("?", 1)[1] if "?" in s else "")
+                        check_match(rec, model, Sid, rng.choice(full), s_last)
+                        base_m = rng.choice(full).split("/")
+                        if len(base_m) > 1:
+                            j = rng.randrange(1, len(base_m))
+                            check_match(rec, model, Sid, "/".join(base_m), "/".join(base_m[:j] + [">"] + base_m[j + 1:]))
                 if k % 17 == 0 and full:
                     # junk-pair case: two untypable alternatives in one segment, and list entries carrying exactly those junk values
                     base = rng.choice(full).split("/")
